@@ -1,6 +1,6 @@
 # Per-property configuration: which regenerated ties and source fingerprints a property's
 # theorems rest on, and which campaign decides it on the implementation side.
-import re
+import os, re
 from . import camp_front as F
 from . import camp_eval as E
 from . import camp_cli as C
@@ -41,13 +41,34 @@ def nat(*names):
 def sanitize(s):
     return re.sub(r'\W', '_', s)
 
+GROUPS = ['evalCases', 'interpreterDigests', 'parserDigests', 'lexerDigests', 'environmentDigests', 'utilsDigests', 'mainDigests']
+_TIE_FILE = os.path.join(os.path.dirname(os.path.dirname(os.path.abspath(__file__))), 'lean', 'BornoModel', 'TieDigests.lean')
+
+def group_ties(groups):
+    """every fingerprint theorem of the given groups (inventory + one per function), read from TieDigests.lean"""
+    out = []
+    try:
+        names = re.findall(r'^theorem (\w+)', open(_TIE_FILE, encoding='utf-8').read(), flags=re.M)
+    except OSError:
+        names = []
+    for n in names:
+        if any(n == 'names_' + g or n.startswith(g + '_') for g in groups):
+            out.append(n)
+    return out
+
 def digest_ties(prop):
+    """first the fingerprints of the functions the property's theorems speak about, then those of the rest of the
+    pipeline its statement depends on (a program is text: whatever the lexer, the parser, the evaluator, the
+    environment and the reporting do to it can change what the property observes)"""
     out = []
     for d in prop.get('digests', []):
         g, n = d.split(':', 1)
         out.append(f'{g}_{sanitize(n)}')
     for g in prop.get('digest_groups', []):
         out.append('names_' + g)
+    for t in group_ties(prop.get('pipeline', [])):
+        if t not in out:
+            out.append(t)
     return out
 
 PLATFORM_NOTE = 'pow / sin / cos / tan / clock are platform parameters of the model (compared on exactly representable cases only)'
@@ -59,15 +80,15 @@ PROPS = {
             'partial': ['"adding parentheses never changes what a program prints" is proved at tree level (Grouping is transparent to the evaluator) and tested end to end']},
     'C02': {'ties': ['tie_tokenTypes'], 'digests': it(*OPS) + ev('Binary', 'Unary') + it('toNumber', 'toInt64') + ['utilsDigests:ConvertBanglaDigitsToASCII'], 'campaign': E.c02,
             'partial': ['IEEE-754 exactness rests on the definitional F64 model tied to the host by correspondence', PLATFORM_NOTE]},
-    'C03': {'scale': True, 'volume': ['scopes', 'calls'], 'ties': [], 'digests': en(ENV_ALL) + ev('BlockStmt', 'ForStmt', 'VarStmt', 'VarListStmt', 'AssignmentStmt', 'Identifier', 'FunctionStmt') +
+    'C03': {'reexec': True, 'scale': True, 'volume': ['scopes', 'calls'], 'ties': [], 'digests': en(ENV_ALL) + ev('BlockStmt', 'ForStmt', 'VarStmt', 'VarListStmt', 'AssignmentStmt', 'Identifier', 'FunctionStmt') +
             it('Function.Call', 'Interpreter.Interpret', 'NewInterpreter'), 'digest_groups': ['environmentDigests'], 'campaign': E.c03},
-    'C04': {'scale': True, 'volume': ['calls', 'scopes'], 'ties': [], 'digests': it('Function.Call', 'Function.Arity', 'NewFunction') + en(ENV_ALL) +
+    'C04': {'reexec': True, 'scale': True, 'volume': ['calls', 'scopes'], 'ties': [], 'digests': it('Function.Call', 'Function.Arity', 'NewFunction') + en(ENV_ALL) +
             ev('Call', 'FunctionStmt', 'Return', 'While', 'ForStmt', 'IfStmt', 'BlockStmt'), 'campaign': E.c04},
-    'C05': {'scale': True, 'volume': ['loops'], 'ties': [], 'digests': ev('IfStmt', 'While', 'ForStmt', 'BreakStmt', 'ContinueStmt', 'BlockStmt') + it('Interpreter.Interpret', 'isTruthy') + pa(['Parser.forStatement']),
+    'C05': {'reexec': True, 'scale': True, 'volume': ['loops'], 'ties': [], 'digests': ev('IfStmt', 'While', 'ForStmt', 'BreakStmt', 'ContinueStmt', 'BlockStmt') + it('Interpreter.Interpret', 'isTruthy') + pa(['Parser.forStatement']),
             'campaign': E.c05},
     'C06': {'ties': ['tie_exits'], 'digests': ['evalCases:' + n for n in ALL_EVAL] + it('Function.Call', 'Interpreter.Interpret', 'evaluateBinary', 'evaluateUnary') +
             ['utilsDigests:RuntimeError', 'mainDigests:runFile', 'mainDigests:run'] + en(['Environment.Assign']), 'digest_groups': ['evalCases'], 'campaign': E.c06},
-    'C07': {'scale': True, 'volume': ['calls', 'scopes', 'loops', 'data'], 'ties': ['tie_panicSites'], 'digests': it(*OPS) + nat(*NATIVES) + it('Function.Call', 'sortedKeys', 'stringify') + ['evalCases:' + n for n in ALL_EVAL],
+    'C07': {'reexec': True, 'scale': True, 'volume': ['calls', 'scopes', 'loops', 'data'], 'ties': ['tie_panicSites'], 'digests': it(*OPS) + nat(*NATIVES) + it('Function.Call', 'sortedKeys', 'stringify') + ['evalCases:' + n for n in ALL_EVAL],
             'digest_groups': ['interpreterDigests', 'evalCases'], 'campaign': E.c07,
             'partial': ['goroutine stack exhaustion and memory exhaustion are runtime behaviours the model cannot exhibit (known findings)']},
     'C08': {'scale': True, 'ties': ['tie_reserved', 'tie_maxParams', 'tie_tokenTypes', 'tie_keywords', 'tie_singleOps', 'tie_twoOps', 'tie_otherCases', 'tie_ladder'],
@@ -79,11 +100,11 @@ PROPS = {
             'partial': ['unicode.IsLetter / IsMark are a parameter of the theorems; the driver uses the range tables extracted from the Go toolchain']},
     'C10': {'ties': ['tie_digitRanges', 'tie_digitMap'], 'digests': lx(['Scanner.number', 'isDigit', 'Scanner.peekNext', 'Scanner.AddToken']) + ['utilsDigests:ConvertBanglaDigitsToASCII'] + it('toNumber', 'toInt64'),
             'campaign': F.c10, 'partial': ['"nearest double" rests on the definitional F64.ofRat tied to strconv.ParseFloat by correspondence']},
-    'C11': {'scale': True, 'ties': ['tie_natives', 'tie_arities'], 'digests': nat('Len', 'Append', 'Remove') + ev('ArrayLiteral', 'ArrayAccess', 'ArrayAssignment') + it('toInt64', 'isEqual'), 'campaign': E.c11},
-    'C12': {'scale': True, 'volume': ['data'], 'ties': ['tie_natives', 'tie_arities'], 'digests': nat('Delete', 'Keys', 'Values') + it('sortedKeys') + ev('ObjectLiteral', 'PropertyAccess', 'PropertyAssignment') + pa(['Parser.objectLiteral']), 'campaign': E.c12},
-    'C13': {'scale': True, 'ties': ['tie_rangeMap', 'tie_nondet'], 'digests': it('sortedKeys', 'stringify') + nat('Keys', 'Values') + ev('ObjectLiteral') + pa(['Parser.objectLiteral']), 'campaign': E.c13,
+    'C11': {'reexec': True, 'scale': True, 'ties': ['tie_natives', 'tie_arities'], 'digests': nat('Len', 'Append', 'Remove') + ev('ArrayLiteral', 'ArrayAccess', 'ArrayAssignment') + it('toInt64', 'isEqual'), 'campaign': E.c11},
+    'C12': {'reexec': True, 'scale': True, 'volume': ['data'], 'ties': ['tie_natives', 'tie_arities'], 'digests': nat('Delete', 'Keys', 'Values') + it('sortedKeys') + ev('ObjectLiteral', 'PropertyAccess', 'PropertyAssignment') + pa(['Parser.objectLiteral']), 'campaign': E.c12},
+    'C13': {'reexec': True, 'scale': True, 'volume': ['data'], 'ties': ['tie_rangeMap', 'tie_nondet'], 'digests': it('sortedKeys', 'stringify') + nat('Keys', 'Values') + ev('ObjectLiteral') + pa(['Parser.objectLiteral']), 'campaign': E.c13,
             'partial': ['that the Go runtime randomises only map iteration (and fmt sorts map keys) is trusted knowledge of the runtime']},
-    'C14': {'scale': True, 'ties': [], 'digests': ev('Binary', 'Unary', 'Logical', 'Call', 'ArrayLiteral', 'ObjectLiteral', 'ArrayAccess', 'ArrayAssignment', 'PropertyAssignment', 'PropertyAccess', 'AssignmentStmt', 'Grouping', 'IfStmt', 'While', 'ForStmt') + it('isTruthy'),
+    'C14': {'reexec': True, 'scale': True, 'ties': [], 'digests': ev('Binary', 'Unary', 'Logical', 'Call', 'ArrayLiteral', 'ObjectLiteral', 'ArrayAccess', 'ArrayAssignment', 'PropertyAssignment', 'PropertyAccess', 'AssignmentStmt', 'Grouping', 'IfStmt', 'While', 'ForStmt') + it('isTruthy'),
             'campaign': E.c14},
     'C15': {'scale': True, 'ties': [], 'digests': ev('PrintStatement', 'ExpressionStatement') + it('stringify', 'stringifyOperand', 'handleAddition', 'Function.String'), 'campaign': E.c15,
             'partial': ['NFC is x/text\'s (tables extracted, algorithm modelled); shortest-digit minimality is strconv\'s (tied by correspondence)']},
@@ -91,7 +112,7 @@ PROPS = {
             ev('Literal', 'ArrayAccess', 'ArrayAssignment', 'PropertyAccess', 'PropertyAssignment', 'Binary', 'Unary', 'Logical', 'IfStmt', 'While', 'ForStmt', 'Call', 'PrintStatement',
                'ExpressionStatement', 'ArrayLiteral', 'ObjectLiteral', 'VarStmt', 'AssignmentStmt', 'Return', 'Grouping'),
             'digest_groups': ['interpreterDigests', 'evalCases'], 'campaign': E.c16},
-    'C17': {'scale': True, 'ties': ['tie_natives', 'tie_arities'], 'digests': nat(*NATIVES) + it('NewInterpreter', 'toNumber') + ev('Call'), 'campaign': E.c17,
+    'C17': {'reexec': True, 'scale': True, 'ties': ['tie_natives', 'tie_arities'], 'digests': nat(*NATIVES) + it('NewInterpreter', 'toNumber') + ev('Call'), 'campaign': E.c17,
             'partial': [PLATFORM_NOTE + '; accuracy of the platform math library is neither modelled nor claimed', 'clock is checked against the wall clock only']},
     'C18': {'ties': ['tie_keywords', 'tie_twoOps', 'tie_digitMap', 'tie_digitRanges', 'tie_blanks', 'tie_otherCases'], 'digests': lx(LEXER_ALL) + en(ENV_ALL) + ev('Grouping') + pa(PARSER_LADDER + ['Parser.varDeclaration']),
             'campaign': E.c18, 'partial': ['renaming and dead-code invariance are decided by correspondence and metamorphic runs; the Lean theorems cover trivia insertion after any token (whole texts), digit script, synonyms and grouping']},
@@ -100,3 +121,14 @@ PROPS = {
     'C20': {'ties': [], 'digests': ['mainDigests:runPrompt', 'mainDigests:run', 'mainDigests:main'] + ev('ExpressionStatement') + it('NewInterpreter', 'Interpreter.Interpret'), 'campaign': C.c20,
             'partial': ['`ইনপুট` inside a REPL session shares buffered stdin with the prompt reader (runtime behaviour, not modelled)']},
 }
+
+# ---- the part of the source each property's statement depends on (all of it is fingerprinted on every run)
+PIPE_LEX = ['lexerDigests', 'utilsDigests']
+PIPE_FRONT = ['lexerDigests', 'parserDigests', 'utilsDigests', 'mainDigests']
+for _pid, _p in PROPS.items():
+    if _pid in ('C09', 'C10'):
+        _p['pipeline'] = PIPE_LEX
+    elif _pid in ('C01', 'C08'):
+        _p['pipeline'] = PIPE_FRONT
+    else:
+        _p['pipeline'] = GROUPS
